@@ -9,6 +9,26 @@ Theorem C11_unescape_fixed_spec : unescape_fixed_spec_stmt.
 Proof. exact unescape_fixed_spec. Qed.
 Print Assumptions C11_unescape_fixed_spec.
 
+Theorem C11_unescape_iw_spec : unescape_iw_spec_stmt.
+Proof. exact unescape_iw_spec. Qed.
+Print Assumptions C11_unescape_iw_spec.
+
+Theorem C11_unescape_iw_refuted : unescape_iw_refuted_stmt.
+Proof. exact unescape_iw_refuted. Qed.
+Print Assumptions C11_unescape_iw_refuted.
+
+Theorem C11_lex_iw_refuted : lex_iw_refuted_stmt.
+Proof. exact lex_iw_refuted. Qed.
+Print Assumptions C11_lex_iw_refuted.
+
+Theorem C11_esc_image_cases : esc_image_cases_stmt.
+Proof. exact esc_image_cases. Qed.
+Print Assumptions C11_esc_image_cases.
+
+Theorem C11_iw_off_irrelevant : iw_off_irrelevant_stmt.
+Proof. exact iw_off_irrelevant. Qed.
+Print Assumptions C11_iw_off_irrelevant.
+
 Theorem C11_unescape_total : unescape_total_stmt.
 Proof. exact unescape_total. Qed.
 Print Assumptions C11_unescape_total.
